@@ -261,6 +261,10 @@ impl<const L: bool> EventSource for Scr<L> {
             bump(&self.sh.reg_fail);
             return Err(injected());
         }
+        if !self.sh.registered.get() {
+            // a composite that knows it is not registered has nothing to refresh
+            return Ok(());
+        }
         if let Some(t) = self.timer.as_mut() {
             t.reregister(poll, tf)?;
         }
@@ -376,6 +380,11 @@ pub struct RCfg {
     pub cb_idle_ops: bool,
     pub final_dispatches: u32,
     pub prune: bool,
+    /// every violation found by this configuration is also a verdict of this property
+    pub tag_all: Option<&'static str>,
+    /// update() is also issued on disabled sources (a composite that knows it is unregistered
+    /// answers Ok without touching its children)
+    pub update_disabled: bool,
 }
 
 #[derive(Clone, Debug, Hash)]
@@ -757,6 +766,9 @@ impl RCtx {
                         v.push(ROp::Update(i));
                     } else {
                         v.push(ROp::Enable(i));
+                        if c.update_disabled && !a.loose && !a.broken {
+                            v.push(ROp::Update(i));
+                        }
                     }
                 }
             }
@@ -912,7 +924,10 @@ impl RCtx {
                     if self.m[id].alive {
                         if let Err(e) = r {
                             self.violate(&["C08", "C09"], "deferred-request-rejected", &[], format!("{op:?} on the running source {id} returned {e:?}"));
-                        } else {
+                        } else if !(op == ROp::DeferUpdate && defer == Some(ROp::DeferDisable)) {
+                            // a disable the source requested on itself stands ("takes effect when its
+                            // current event processing finishes", C07): a later update() does not
+                            // cancel it; any other sequence: the last request is the one applied
                             defer = Some(op);
                         }
                     }
@@ -1575,6 +1590,13 @@ pub fn run_history(cfg: &Rc<RCfg>, verbose: bool) -> (Outcome, Option<Vec<String
                     tape: vec![],
                     decoded: vec![],
                 });
+            }
+        }
+    }
+    if let Some(tag) = cfg.tag_all {
+        for v in violations.iter_mut() {
+            if !v.props.iter().any(|p| p == tag) {
+                v.props.push(tag.to_string());
             }
         }
     }
